@@ -123,6 +123,21 @@ def worst(algs):
     return 3 if 'fail' in lv else 2 if 'warn' in lv else 0
 
 
+GENERAL_FINDINGS = (('(gen) protocol SSH1 enabled', 3), ('(sec) SSH v1 enabled', 3), ('(gen) banner contains non-printable ASCII', 2))
+
+
+def general_level(text):
+    """Level of the findings of the general/security sections of a printed report (they carry their level as colour, not as a tag)."""
+    t = strip_ansi(text)
+    return max([lv for (needle, lv) in GENERAL_FINDINGS if any(l.startswith(needle) for l in t.split('\n'))] or [0])
+
+
+def worst_report(text, algs=None):
+    """Worst finding of a printed text report: algorithm notes and general-section findings."""
+    algs = algs if algs is not None else parse_text(text)['algs']
+    return max(worst(algs), general_level(text))
+
+
 def load_json(out):
     try:
         return json.loads(out)
